@@ -364,7 +364,7 @@ def rule_accept_value(ck):
     rets = [st for st in body if isinstance(st, ast.Return)]
     okr = False
     for r in rets:
-        b64 = [c for c in ast.walk(r) if q.is_call(c, "base64.b64encode")]
+        b64 = [c for c in ast.walk(res(r.value) if r.value is not None else r) if q.is_call(c, "base64.b64encode")]
         if len(b64) == 1 and len(b64[0].args) == 1:
             dg = res(b64[0].args[0])
             if isinstance(dg, ast.Call) and isinstance(dg.func, ast.Attribute) and dg.func.attr == "digest" and not dg.args:
